@@ -129,7 +129,7 @@ type (
 		Forall  bool
 		Binders []CBinder
 		Body    CExpr
-		Trig    []CExpr
+		Trig    [][]CExpr // each group is one multi-pattern
 	}
 	// CLambda is "x => body" used only as argument of cnt()/cntsofar().
 	CLambda struct {
@@ -301,7 +301,14 @@ func (p *cparser) quant() CExpr {
 		}
 		p.expect("::")
 		for p.accept("{") {
-			q.Trig = append(q.Trig, p.quant())
+			var grp []CExpr
+			for {
+				grp = append(grp, p.quant())
+				if !p.accept(",") {
+					break
+				}
+			}
+			q.Trig = append(q.Trig, grp)
 			p.expect("}")
 		}
 		q.Body = p.quant()
